@@ -7,15 +7,21 @@ import (
 	"zvh/engines/query"
 	"zvh/engines/coalesce"
 	"zvh/engines/crash"
+	"zvh/engines/plan"
+	"zvh/engines/heap"
+	"zvh/engines/robust"
 	"zvh/engines/seq"
 	"zvh/engines/store"
 )
 
 func init() {
-	for _, n := range []string{"auth", "codec", "sortlim", "coalesce", "crash"} {
+	for _, n := range []string{"auth", "codec", "sortlim", "coalesce", "crash", "robust", "plan"} {
 		ownsReplay[n] = true
 	}
 	engines["seq"] = seq.Engine{}
+	engines["robust"] = robust.Engine{}
+	engines["heap"] = heap.Engine{}
+	engines["plan"] = plan.Engine{}
 	engines["crash"] = crash.Engine{}
 	engines["coalesce"] = coalesce.Engine{}
 	engines["query"] = query.Engine{}
